@@ -93,6 +93,18 @@ CHECKS["C18"] = dict(
     technique="Lean 4 proof (lexer loop invariants, induction on strings, kernel evaluation over tables); AST correspondence; ast.walk vocabulary oracle",
     ref="§5 C18")
 
+CHECKS["C13"] = dict(
+    text="Lean: a machine that follows LazyList.py method by method over a finite source, the invariant `cache = prefix of the source`, "
+         "and history_correct: for ALL source lists and ALL observation histories every answer (indexing incl. negative and wrap-around, "
+         "slices counted from the end, length, iteration, truthiness, membership with early exit, equality, counting, reversal, copying, "
+         "indexing a copy) equals the plain list's answer and the denoted sequence never changes (induction over the history, one "
+         "correctness lemma per method). Tie: the same histories on the real class vs the machine (exhaustive to length 2/3 over 37 "
+         "operations on all lists of length <= 3), and the direct oracle against a Python list.",
+    note=COMMON_NOTE + "Partial in one named way: for forward-loop slices (start >= 0, step > 0) the invariant is proved, the answer equality only "
+         "validated by correspondence. T4: the raw iterator is modelled as a finite list with a position; itertools.tee of a copy as a view that pulls through the parent.",
+    technique="Lean 4 proof: state-machine invariant + per-operation refinement lemmas + induction over histories; differential histories on the real class",
+    ref="§5 C13")
+
 NOT_YET = {}
 
 def main():
